@@ -137,7 +137,9 @@ def config_task(args):
         s = getattr(S, name)(*cargs)
         if folded:
             s = S.fold(s)
-        ev, steps, stats = G.quiet(record, s, 6, 64 if quick else 128, 128 if quick else 256, 2 if quick else 3)
+        # every second configuration on an odd grid (the centre pixel is G // 2 there too)
+        odd = (sum(map(ord, name + repr(cargs))) + int(folded)) % 2
+        ev, steps, stats = G.quiet(record, s, 6, 64 if quick else 128, (128 if quick else 256) - odd, 2 if quick else 3)
     except Exception as ex:
         import traceback
         return {"error": "%s: %s" % (type(ex).__name__, ex), "tb": traceback.format_exc()[-1200:], "name": name,
@@ -343,5 +345,5 @@ def main(ctx):
         "so the family is realised as the classical Cassegrain (paraboloid + convex hyperboloid); the refracting sphere "
         "families (own centre, aplanatic points) receive their virtual object point from a plano-hyperbolic converger",
         "radii of the opposite sign are reached by mirroring the system behind a plane fold mirror (light then travels along -z)",
-        "Strehl = 1 is a threshold (>= 1 - 2^-12) on an FFT result (grid 128 quick / 256 thorough), not an identity",
+        "Strehl = 1 is a threshold (>= 1 - 2^-12) on an FFT result (grid 128 or 127 quick / 256 or 255 thorough), not an identity",
     ]
